@@ -18,7 +18,7 @@ LEVEL_TEXT = ("seeded search over boxes, range modes, constraints and interleavi
 LEVEL_NOTE = "trusts the scripted cost's call log; sampling, not proof"
 KNOBS = dict(p_bounds=0.85, p_constraint=0.4, p_penalty=0.2, p_vector=0.05, p_exotic_box=0.5, p_clipfalse=0.15,
              p_midrun_set=0.55, midrun_sets=('bounds', 'bounds', 'bounds', 'constraint', 'limits', 'penalty'),
-             p_hostile=0.3, p_illegal=0.05, p_reject=0.15, max_ops=8)
+             p_hostile=0.3, p_illegal=0.05, p_reject=0.3, max_ops=8)
 ORACLES = [oracles.BoxOracle]
 valid = None
 
